@@ -309,6 +309,16 @@ def setter_cases(family):
             for bad in (-300, -100, -50, -1, 101, 400):
                 yield ('set_operation_mode:kw', (mode, bad, 50), 'ValueError')
                 yield ('set_operation_mode:kw', (mode, 50, bad), 'ValueError')
+            # values that come back into 0..100 when cut to 8, 16 or 32 bits (the encoders mask and format)
+            for base in (256, 65536, 2 * 65536, 2 ** 32, -65536, -2 ** 32):
+                for k in list(range(-100, 101, 4)) + [-1, 1, 99, 100]:
+                    v = base + k
+                    if not 0 <= v <= 100:
+                        yield ('set_operation_mode', (mode, v, 50), 'ValueError')
+                        yield ('set_operation_mode', (mode, 50, v), 'ValueError')
+        for base in (256, 65536, 2 ** 32):
+            for k in range(-100, 101, 10):
+                yield ('set_ongrid_battery_dod', (base + k,), 'silent')
     for sid in ('', ' ', 'grid_export_limi', 'Grid_export_limit', 'grid_export_limit ', 'eco_mode_5', 'work-mode', 'unknown',
                 'mod', 'time2'):
         yield ('write_setting', (sid, 1), 'ValueError')
